@@ -82,7 +82,8 @@ func parseWriteStringArgs(
 		rest := args[1:]
 		start := 0
 		end := len(ra)
-		if w, ok = args[1].(io.Writer); ok {
+		if w2, ok2 := args[1].(io.Writer); ok2 {
+			w = w2
 			ss, _ = args[1].(slip.Stream)
 			rest = args[2:]
 		}
